@@ -25,7 +25,7 @@ SPEC = {
             "pieces, optionally joined by pieces of the same datagram from a second chain (overlapping), 0..2 pieces "
             "lost, 0..3 duplicated, order kept/reversed/shuffled, datagrams interleaved, 0..4 expiry callbacks that "
             "reuse the epoch handed out by an earlier event (right away or later, also stale ones and +-1/absolute "
-            "values); every fifth case is hostile (fields outside what fragmentation produces: every panic site, "
+            "values); a quarter of the cases are key-reuse scenarios (2..3 keys whose buffers see different numbers of arrivals and are freed - by completion, by an unfragmented datagram, by their own callback - heaviest first, last or at random, once or twice; then a new datagram arrives under one or two of the keys and after each of its fragments every callback armed so far, for every key, is fired); every fifth case is hostile (fields outside what fragmentation produces: every panic site, "
             "same-offset pieces with different content, lengths disagreeing with the header). Compared per event: "
             "the ReceivePacketResult (all header fields and payload octets; timer and epoch) and after each "
             "callback the number of buffers and the presence of its key. Oracle: an independent byte-map "
